@@ -63,8 +63,7 @@ class ClientProxyBuilder(object):
     def is_user_method(m):
       return ((inspect.ismethod(m) or inspect.isfunction(m))
               and not inspect.isbuiltin(m)
-              and not ClientProxyBuilder._method_name(m).startswith('__')
-              and not ClientProxyBuilder._method_name(m).endswith('__'))
+              and not ClientProxyBuilder._method_name(m).startswith('__'))
 
     # Get all methods defined on the interface.
     iface_methods = { m[0]: ProxyMethod(*m)
